@@ -355,6 +355,43 @@ def emit_fn(out, entry, mode, stats, canary=False):
             if k < 1 or k > len(loops):
                 raise LostAnchor(f"{entry.id}: loop#{k} not found ({len(loops)} loops)")
             edits.append((loops[k - 1][1], loops[k - 1][1], "\n" + b.text().rstrip("\n") + "\n", vc_origin(b)))
+            if "tailcontinue" in b.arg:
+                # N16: Verus for-loops do not support `continue`. A `continue` that is the value of a match arm of the
+                # LAST statement of the loop body is equivalent to `{}`; anything else is refused.
+                lb_open = loops[k - 1][1]
+                lb_close = br[lb_open]
+                for ci in range(lb_open + 1, lb_close):
+                    if toks[ci].kind == IDENT and toks[ci].text == "continue":
+                        # innermost enclosing brace block
+                        depth_open = None
+                        for oi in range(ci, lb_open, -1):
+                            if toks[oi].kind == PUNCT and toks[oi].text == "{" and br[oi] > ci:
+                                depth_open = oi
+                                break
+                        if depth_open is None or depth_open == lb_open:
+                            raise LostAnchor(f"{entry.id}: loop#{k}: continue is not inside a match of the tail statement")
+                        after = [x for x in range(br[depth_open] + 1, lb_close) if toks[x].kind not in (WS, COMMENT) and toks[x].text != ";"]
+                        prevs = [x for x in range(lb_open + 1, ci) if toks[x].kind not in (WS, COMMENT)]
+                        if after or not prevs or toks[prevs[-1]].text != "=>":
+                            raise LostAnchor(f"{entry.id}: loop#{k}: continue is not in tail position")
+                        edits.append((ci, ci + 1, "{}", dict(kind="gen", fn=entry.id, norm="N16")))
+                        stats.count("N16")
+            m_dr = re.search(r"deref=(\w+)", b.arg)
+            if m_dr:
+                # N15: `for &x in E {` => `for verif_ref_x in E { let x = *verif_ref_x;`  (Verus has no ref patterns)
+                kw_i = loops[k - 1][0]
+                v = m_dr.group(1)
+                j = kw_i + 1
+                while toks[j].kind in (WS, COMMENT):
+                    j += 1
+                j2 = j + 1
+                while toks[j2].kind in (WS, COMMENT):
+                    j2 += 1
+                if not (toks[kw_i].text == "for" and toks[j].text == "&" and toks[j2].text == v):
+                    raise LostAnchor(f"{entry.id}: loop#{k} is not `for &{v} in ..`")
+                edits.append((j, j2 + 1, f"verif_ref_{v}", dict(kind="gen", fn=entry.id, norm="N15")))
+                edits.append((loops[k - 1][1] + 1, loops[k - 1][1] + 1, f" let {v} = *verif_ref_{v};", dict(kind="gen", fn=entry.id, norm="N15")))
+                stats.count("N15")
             m_it = re.search(r"iter=(\w+)", b.arg)
             if m_it:
                 kw_i = loops[k - 1][0]
